@@ -1,18 +1,18 @@
 (* C08 - the server reacts to each frame as its stream's RFC 7540 state prescribes.
-   Only statements here; every proof is one lemma of Proofs/SrvRfcThm.v.
+   Only statements here; every proof is one lemma of Proofs/SrvRfcThm.v or Proofs/SrvRfcLegal.v.
 
    The specification is Spec/Rfc7540Streams.v (states, reactions, `allowed`, `spec_next`, `legal`,
    `complete_request`).  How the model (Impl/ServerInst.v) is observed against it is Proofs/SrvRfcDefs.v:
      feed / run_items   the lockstep schedule: per input `EvRL i; EvSL`, handler completions `EvDone`,
-                        and the local events EvClock, EvIdle, EvCloser in between;
+                        and the local events EvClock, EvTimer, EvIdle, EvCloser in between;
      reaction_of        what the model answered to an input, read off the outputs of its two steps;
      spec_feed          the specification state following the model;
      R                  the abstraction relation (DESIGN.md Appendix F);
      known_deviation    the places where the model is known to differ from the RFC (D1, D3, D6, D7);
-     in_scope           what the theorems leave out (see below). *)
+     (Proofs/SrvRfcLegal.v: `mild`, the error classes the RFC leaves to the server's discretion.) *)
 From Coq Require Import List NArith ZArith Bool.
 From H2V Require Import Base.Bytes Base.MachineInt Base.Result Gen.GenConsts Impl.Hpack Impl.ServerConn Impl.ServerInst.
-From H2V Require Import Proofs.SrvBase Proofs.SrvRfcDefs Proofs.SrvRfcThm
+From H2V Require Import Proofs.SrvBase Proofs.SrvRfcDefs Proofs.SrvRfcThm Proofs.SrvRfcLegal
   Proofs.SrvRfcExamples.   (* compiled with the property so that the examples are checked too *)
 Import ListNotations.
 Local Open Scope N_scope.
@@ -20,18 +20,16 @@ Local Open Scope N_scope.
 Notation srv_feed := (feed hpack_state srv_dec_field srv_enc_field set_max_table_size).
 Notation srv_item_ok := (item_ok hpack_state srv_dec_field srv_enc_field set_max_table_size).
 Notation srv_run_items := (run_items hpack_state srv_dec_field srv_enc_field set_max_table_size).
-Notation srv_scope_from := (scope_from hpack_state srv_dec_field srv_enc_field set_max_table_size).
+Notation srv_check_from := (check_from hpack_state srv_dec_field srv_enc_field set_max_table_size).
 
 (* (a) For every lockstep schedule from the initial state - any inputs (frames of every type with any
    flags on any stream id, unknown types, malformed frames, end of input), any handler completions, clock
-   ticks, idle shutdown - in scope (SETTINGS / WINDOW_UPDATE on stream 0 only while no response is waiting
-   for send window; no request timer):
+   ticks, the request timer, idle shutdown, the closer channel:
    - the abstraction relation R holds between the model state and the specification state reached on the
      same schedule;
    - every input fed while the stream loop runs gets a reaction the specification allows in the
      specification state reached on the prefix before it, or falls under a known deviation. *)
 Theorem C08_reactions_allowed : forall cfg its,
-  srv_scope_from cfg (init_conn cfg srv_init_hpack) RS.init its = true ->
   R hpack_state (fst (srv_run_items cfg (init_conn cfg srv_init_hpack) RS.init its))
                 (snd (srv_run_items cfg (init_conn cfg srv_init_hpack) RS.init its)) /\
   forall pre it post, its = pre ++ it :: post ->
@@ -50,7 +48,6 @@ Print Assumptions C08_reactions_allowed.
    [HEADERS(END_STREAM) CONTINUATION*], END_STREAM on the last DATA or on the HEADERS of the last block,
    END_HEADERS closing each block, nothing else but PRIORITY / WINDOW_UPDATE frames in between. *)
 Theorem C08_dispatch_only_legal : forall cfg its sid rq,
-  srv_scope_from cfg (init_conn cfg srv_init_hpack) RS.init its = true ->
   In (ODispatch sid rq) (trace (fst (srv_run_items cfg (init_conn cfg srv_init_hpack) RS.init its))) ->
   exists pre post, its = pre ++ post /\ RS.complete_request (frames_on sid pre) = true.
 Proof. intros cfg. exact (dispatch_only_legal hpack_state srv_dec_field srv_enc_field set_max_table_size cfg srv_init_hpack). Qed.
@@ -58,9 +55,10 @@ Print Assumptions C08_dispatch_only_legal.
 
 (* Examples: a sixteen-item schedule (request in four frames with trailers, responses, a stream reset
    by the peer, PRIORITY / WINDOW_UPDATE on open, closed and idle streams, PING and SETTINGS in between)
-   is in scope, gets allowed reactions throughout and dispatches stream 1 with its body. *)
-Example C08_example_in_scope : srv_scope_from ex_cfg ex_init RS.init ex_run = true.
-Proof. exact ex_run_in_scope. Qed.
+   gets allowed reactions throughout (the executable check of Proofs/SrvRfcDefs.v says 0) and dispatches stream 1
+   with its body. *)
+Example C08_example_checks : srv_check_from ex_cfg ex_ids 0 ex_init RS.init ex_run = 0%nat.
+Proof. exact ex_run_checks. Qed.
 
 Example C08_example_dispatch :
   exists rq, In (ODispatch 1 rq) (trace (fst (srv_run_items ex_cfg ex_init RS.init ex_run))) /\ rq_body rq = [104; 105].
@@ -68,6 +66,14 @@ Proof. exact ex_run_dispatches_1. Qed.
 
 Example C08_example_complete : RS.complete_request (frames_on 1 ex_run) = true.
 Proof. exact ex_run_frames_on_1_complete. Qed.
+
+(* ... and one where a SETTINGS frame lets two waiting responses finish in the same step *)
+Example C08_example_flush : srv_check_from ex_cfg ex_ids 0 ex_init RS.init ex_flush = 0%nat.
+Proof. exact ex_flush_checks. Qed.
+
+(* ... and one where the request timer resets a stream whose handler runs and one whose header block is still arriving *)
+Example C08_example_timer : srv_check_from ex_tcfg ex_ids 0 (init_conn ex_tcfg srv_init_hpack) RS.init ex_timer = 0%nat.
+Proof. exact ex_timer_checks. Qed.
 
 (* The known deviations are real (each confirmed by computation on the model). *)
 Example C08_deviation_D1_priority_on_even_id :
@@ -87,27 +93,64 @@ Example C08_deviation_D6_settings_on_closed_stream :
     = RS.ConnErr c_StreamClosedError.
 Proof. exact (conj ex_D6_not_allowed ex_D6_goaway_code). Qed.
 
-(* (b) NOT PROVED.  The statement: a legal frame sequence (RS.legal), with any handler completions
-   interleaved, during which the server decides no reset of its own and meets no limit or decoding error
-   (no RST_STREAM and no GOAWAY(COMPRESSION_ERROR | ENHANCE_YOUR_CALM | INTERNAL_ERROR | FLOW_CONTROL_ERROR)
-   in the trace), on odd stream ids and with at most 256 streams (the ring never forgets), is served
-   without any error: no GOAWAY at all and no loop exit. *)
+(* (b) PARTIAL.  What is proved (a corollary of (a) and of the table): along a lockstep run, an input that the
+   table lets take effect in the specification state reached so far (RS.may_process; this is what RS.legal asks of
+   every frame) is - outside the known deviations, while the connection is not in error - processed, ignored, or
+   answered with an error of the classes the RFC leaves to the server's discretion (`mild`: REFUSED_STREAM,
+   ENHANCE_YOUR_CALM, CANCEL, INTERNAL_ERROR, PROTOCOL_ERROR for a malformed message, COMPRESSION_ERROR,
+   FLOW_CONTROL_ERROR, NO_ERROR in answer to GOAWAY): never STREAM_CLOSED, never FRAME_SIZE_ERROR. *)
+Theorem C08_legal_no_error_partial : forall cfg its,
+  forall pre i post, its = pre ++ IIn i :: post ->
+    let c := fst (srv_run_items cfg (init_conn cfg srv_init_hpack) RS.init pre) in
+    let s := snd (srv_run_items cfg (init_conn cfg srv_init_hpack) RS.init pre) in
+    sc_sl_done c = false -> RS.dead s = false ->
+    RS.may_process s (abs_input i) = true -> known_deviation hpack_state c s i = false ->
+    mild (resolve s (abs_input i) (reaction_of hpack_state c i (srv_feed cfg c (IIn i)))) = true.
+Proof. intros cfg. exact (legal_reaction_class hpack_state srv_dec_field srv_enc_field set_max_table_size cfg srv_init_hpack). Qed.
+Print Assumptions C08_legal_no_error_partial.
+
+Example C08_example_legal_partial :
+  let pre := firstn 4 ex_run in
+  let c := fst (srv_run_items ex_cfg ex_init RS.init pre) in
+  let s := snd (srv_run_items ex_cfg ex_init RS.init pre) in
+  let i := RFrame (fr KData 0 1 [104; 105] 0 0 0) in
+  nth_error ex_run 4 = Some (IIn i) /\ RS.may_process s (abs_input i) = true /\
+  resolve s (abs_input i) (reaction_of hpack_state c i (srv_feed ex_cfg c (IIn i))) = RS.Process.
+Proof. exact ex_run_item4_legal. Qed.
+
+(* The full statement, NOT PROVED: a legal frame sequence (RS.legal: every frame may take effect in the state the
+   earlier frames produced) on odd stream ids below 512 (so that the 256-entry ring of closed streams never forgets)
+   and without a GOAWAY frame, with any handler completions interleaved, during which the server raises no error of
+   the discretionary classes, is served without any error at all: no RST_STREAM, no GOAWAY, no loop exit.
+   Checked by bounded exhaustive search (no counterexample among the legal sequences of length <= 5..7 over 2-3
+   streams, Proofs/SrvRfcExamples.v has the statement's ingredients); what a proof still needs:
+   1. RS.legal follows the frames alone, (a) and the theorem above follow the specification state that also sees what
+      the server sent (responses finished, the ring forgetting).  Linking the two needs the fact that with ids below
+      512 the ring never evicts (ring entries are odd ids <= sc_highestID: an invariant not part of Proofs/SrvRfcSim.v)
+      and a simulation between the two specification states.
+   2. (a) bounds the reaction by the table, and the table lets any stream error be escalated to a connection error or
+      to closing (5.4.1).  That the model does not do so on its own - GOAWAY(PROTOCOL_ERROR) is also what the header
+      decoder answers a malformed message with, on a perfectly legal frame sequence, so the trace cannot tell the two
+      apart - has to be read off each of the model's error sites (about 30 leaves of Proofs/SrvRfcSl.v / SrvRfcFrame.v). *)
 Definition frame_of_item (it : item) : list sframe := match it with IIn (RFrame f) => [f] | _ => [] end.
 Definition only_frames_and_completions (its : list item) : bool :=
-  forallb (fun it => match it with IIn (RFrame f) => N.odd (sf_sid f) || (sf_sid f =? 0) | IDone _ _ => true | _ => false end) its.
-Definition no_policy_error (o : outev) : bool :=
+  forallb (fun it => match it with
+                     | IIn (RFrame f) => ((N.odd (sf_sid f) && (sf_sid f <? 512)) || (sf_sid f =? 0)) &&
+                                         negb (match sf_kind f with KGoAway => true | _ => false end)
+                     | IDone _ _ => true
+                     | _ => false
+                     end) its.
+Definition no_limit_error (o : outev) : bool :=
   match strip_late o with
-  | ORst _ _ => false
-  | OGoAway _ code => negb ((code =? c_CompressionError) || (code =? c_EnhanceYourCalm) || (code =? c_InternalError) || (code =? c_FlowControlError))
+  | ORst _ code => negb (stream_limit_code code)
+  | OGoAway _ code => negb (stream_limit_code code || conn_limit_code code)
   | _ => true
   end.
 Definition no_error_at_all (o : outev) : bool :=
   match strip_late o with ORst _ _ | OGoAway _ _ | OExit _ _ | OPanic _ _ => false | _ => true end.
 
 Definition C08_legal_no_error_statement : Prop := forall cfg its,
-  srv_scope_from cfg (init_conn cfg srv_init_hpack) RS.init its = true ->
   only_frames_and_completions its = true ->
   RS.legal (map abs_frame (flat_map frame_of_item its)) = true ->
-  (length (filter (fun f => match sf_kind f with KHeaders => true | _ => false end) (flat_map frame_of_item its)) <= 256)%nat ->
   let tr := trace (fst (srv_run_items cfg (init_conn cfg srv_init_hpack) RS.init its)) in
-  forallb no_policy_error tr = true -> forallb no_error_at_all tr = true.
+  forallb no_limit_error tr = true -> forallb no_error_at_all tr = true.
